@@ -110,3 +110,123 @@ pub mod ev {
     /// A list element (`addr`) was handed to `IsElement::finalize`.
     pub const LIST_FINALIZE: u32 = 6;
 }
+
+pub use crate::ebr_impl::verif_local_state as local_state;
+pub use crate::ebr_impl::verif_shim as tagged;
+pub use crate::ebr_impl::{default_collector, Collector, LocalHandle};
+pub use crate::strong::verif_strong::*;
+pub use crate::utils::verif_shim::{
+    modular_le, modular_max, state_add_strong, state_add_weak, state_consts, state_fields,
+    state_sub_strong, state_with_destructed, state_with_epoch, state_with_weaked,
+};
+pub use crate::weak::verif_weak::*;
+
+use crate::ebr_impl::{Entry, Guard, IsElement, IterError, List, Queue, RawShared};
+
+/// The global epoch of the default collector (as used for stamps), read without yielding.
+pub fn global_epoch() -> usize {
+    default_collector().verif_epoch() >> 1
+}
+
+/// Defers `f` through the collector `guard` belongs to (wrapper around the crate-private
+/// `Guard::defer_unchecked`).
+///
+/// # Safety
+///
+/// As for `crossbeam_epoch::Guard::defer_unchecked`.
+pub unsafe fn defer<F: FnOnce()>(guard: &Guard, f: F) {
+    guard.defer_unchecked(f)
+}
+
+/// The collector's internal bag queue, instantiated at `T`.
+pub struct VQueue<T>(Queue<T>);
+
+impl<T: Sync> VQueue<T> {
+    pub fn new() -> Self {
+        Self(Queue::new())
+    }
+    pub fn push(&self, t: T, guard: &Guard) {
+        self.0.push(t, guard)
+    }
+    pub fn try_pop(&self, guard: &Guard) -> Option<T> {
+        self.0.try_pop(guard)
+    }
+    pub fn try_pop_if<F: Fn(&T) -> bool>(&self, condition: F, guard: &Guard) -> Option<T> {
+        self.0.try_pop_if(condition, guard)
+    }
+}
+
+impl<T: Sync> Default for VQueue<T> {
+    fn default() -> Self {
+        Self::new()
+    }
+}
+
+/// An element of `VList`.
+#[repr(C)]
+pub struct VElem {
+    entry: Entry,
+    pub id: usize,
+}
+
+impl IsElement<VElem> for VElem {
+    fn entry_of(e: &VElem) -> &Entry {
+        &e.entry
+    }
+    unsafe fn element_of(entry: &Entry) -> &VElem {
+        &*(entry as *const Entry as *const VElem)
+    }
+    unsafe fn finalize(entry: &Entry, guard: &Guard) {
+        let elem = Self::element_of(entry);
+        event(ev::LIST_FINALIZE, elem.id, 0);
+        guard.defer_destroy(RawShared::from(elem as *const VElem));
+    }
+}
+
+/// The collector's internal participant list, instantiated at `VElem`.
+pub struct VList(List<VElem>);
+
+/// An opaque reference to an inserted element; valid until it was deleted *and* unlinked.
+#[derive(Clone, Copy)]
+pub struct VElemRef(*const VElem);
+unsafe impl Send for VElemRef {}
+
+unsafe impl Send for VList {}
+unsafe impl Sync for VList {}
+
+impl VList {
+    pub fn new() -> Self {
+        Self(List::new())
+    }
+    pub fn insert(&self, id: usize, guard: &Guard) -> VElemRef {
+        let elem = RawShared::from_owned(VElem {
+            entry: Entry::default(),
+            id,
+        });
+        unsafe { self.0.insert(elem, guard) };
+        VElemRef(elem.as_raw())
+    }
+    /// # Safety
+    ///
+    /// `e` must have been returned by `insert` on this list and not been deleted before.
+    pub unsafe fn delete(&self, e: VElemRef, guard: &Guard) {
+        (*e.0).entry.delete(guard)
+    }
+    /// Traverses the list once; `Err(visited so far)` if the traversal reported a stall.
+    pub fn traverse(&self, guard: &Guard) -> Result<Vec<usize>, Vec<usize>> {
+        let mut seen = Vec::new();
+        for e in self.0.iter(guard) {
+            match e {
+                Ok(e) => seen.push(e.id),
+                Err(IterError::Stalled) => return Err(seen),
+            }
+        }
+        Ok(seen)
+    }
+}
+
+impl Default for VList {
+    fn default() -> Self {
+        Self::new()
+    }
+}
